@@ -582,6 +582,27 @@ static void gen_field(Gen& g, const std::string& tier, const std::string& profil
             if (sa == 2 * sb - 1) g.emit("rkaramidmul", {H(sb), A, B});
         }
     }
+    // ---------------- middle product: every shape class of the generic dispatch (m = |P|-|Q|+1, n = |Q|): schoolbook, balanced,
+    // m > n (blocks along P, with and without a rest), m < n (blocks along Q accumulated into R, with and without a rest);
+    // all of them above the threshold in the threshold-2 build
+    {
+        const long lim = karaonly ? (thorough ? 16 : 12) : (g.isQ ? 4 : 6);
+        for (long m = 1; m <= lim; ++m) for (long n = 1; n <= lim; ++n) {
+            if (!karaonly && ((m + n) % 2)) continue;
+            std::string A = g.poly(m + n - 2, (int)g.rng.below(4) == 0 ? 4 : 0), B = g.poly(n - 1, (int)g.rng.below(5) == 0 ? 4 : 0);
+            g.emit("midmul", {A, B}); g.emit("rmidmul", {H(m), A, B});
+        }
+        if (!g.isQ) {
+            const long T0 = KARA_THRESHOLD;
+            std::vector<std::pair<long, long>> big = {{T0 + 1, 2 * T0 + 3}, {2 * T0 + 5, T0 + 1}, {T0 + 2, T0 + 1}, {T0 + 1, T0 + 2}, {T0 + 1, T0 + 1}};
+            if (thorough) { big.push_back({T0 + 1, 3 * T0 + 4}); big.push_back({3 * T0 + 3, T0 + 1}); big.push_back({2 * T0 + 2, 2 * T0 + 2}); }
+            for (auto& mn : big) {
+                std::string A = g.poly(mn.first + mn.second - 2, 0), B = g.poly(mn.second - 1, 0);
+                g.emit("midmul", {A, B}); g.emit("rmidmul", {H(mn.first), A, B});
+                if (mn.first == mn.second) g.emit("rkaramidmul", {H(mn.first), A, B});
+            }
+        }
+    }
     // ---------------- operands sharing a large common factor
     for (int rep = 0; rep < (thorough ? 40 : 12); ++rep) {
         long dg = 1 + (long)g.rng.below(dmax), da = (long)g.rng.below(4) - 1, db = (long)g.rng.below(4);
